@@ -199,14 +199,23 @@ def centering(ctx):
         ctx.ob('CENTERING', MIL + '::' + name, 'an unknown setting is refused', ok, node=fn, key='unknown ' + name)
     # the converter's multip and basis table
     d = ctx.fn(C2P, 'dump')
-    mp = [s for s in ast.walk(d) if isinstance(s, ast.If) and any(isinstance(x, ast.Assign) and norm(x.targets[0]) == 'multip' for x in s.body)]
-    ctx.need(len(mp) == 1, 'conventional_to_primitive.dump: the choice of multip was not found')
-    ev = SymEval()
+    # the multiplier the converter selects per setting: its head interpreted (basis check switched off) up to the rotation indices
+    stop = [i for i, st in enumerate(d.body) if isinstance(st, ast.Assign) and norm(st.targets[0]) == 'cps_uvws']
+    ctx.need(len(stop) == 1, 'conventional_to_primitive.dump: cps_uvws assignment not found')
     chosen = {}
+    mp = [d.body[stop[0]]]
     for s in SETTINGS:
-        p = Path({'setting': s})
-        ev.block([mp[0]], [p])
-        chosen[s] = int(p.env['multip'])
+        seen_m = []
+        mil = SymObj(None, {}, 'miller')
+        mil.attrs['vector_primitive_to_conventional'] = lambda m, setting=None: (seen_m.append(np.asarray(m, dtype=object)), m)[1]
+        p = Path({'system': SymObj(None, {}, 'system'), 'setting': s, 'smallshift': None, 'rtol': sp.Symbol('rtol'), 'atol': sp.Symbol('atol'), 'check_basis': False, 'check_family': True, 'return_transform': False, 'miller': mil})
+        try:
+            SymEval(module_aliases(ctx.mod(C2P))).block(d.body[:stop[0] + 1], [p])
+        except (Opaque, WouldRaise) as e:
+            raise AnalysisError('conventional_to_primitive.dump head (setting %s): %s' % (s, e))
+        ctx.need(len(seen_m) == 1 and np.shape(seen_m[0]) == (3, 3) and all(seen_m[0][i, j] == (seen_m[0][0, 0] if i == j else 0) for i in range(3) for j in range(3)),
+                 'conventional_to_primitive.dump: the supercell indices are not a multiple of the identity for setting %s' % s)
+        chosen[s] = int(seen_m[0][0, 0])
     for s in SETTINGS:
         M = chosen[s] * p2c[s]
         ctx.ob('CENTERING', C2P + '::dump', 'setting %s: the %d×%d×%d primitive supercell has integer conventional indices' % (s, chosen[s], chosen[s], chosen[s]), all(x.is_Integer for x in M), str(M.tolist()), node=mp[0], key='multip ' + s)
@@ -229,27 +238,109 @@ def centering(ctx):
 def conversion(ctx):
     d = ctx.fn(C2P, 'dump')
     loc = C2P + '::dump'
-    c = [x for x in calls_in(d) if norm(x.func) == 'miller.vector_primitive_to_conventional']
-    ok = len(c) == 1 and norm(c[0].args[0]).replace(' ', '') in ('multip*np.identity(3)', 'np.identity(3)*multip', 'multip*np.eye(3)') and norm(kwarg(c[0], 'setting', 1)) == 'setting'
-    ctx.ob('CONVERSION', loc, 'conventional→primitive re-expresses the cell along multip × the primitive vectors (in conventional indices) of the same setting', ok, norm(c[0]) if c else '', node=d)
-    r = [x for x in calls_in(d) if norm(x.func) == 'system.rotate']
-    tgt = assigns_to(d, 'cps_uvws')
-    ok = len(r) == 1 and tgt and norm(r[0].args[0]) == 'cps_uvws' and isinstance(kwarg(r[0], 'return_transform'), ast.Constant) and kwarg(r[0], 'return_transform').value is True
-    ctx.ob('CONVERSION', loc, '... by rotate(), keeping the returned transformation', bool(ok), node=d)
-    bx = [x for x in calls_in(d) if norm(x.func) == 'Box']
-    ok = len(bx) == 1 and norm(kwarg(bx[0], 'vects')).replace(' ', '') == 'p_scell.box.vects/multip'
-    ctx.ob('CONVERSION', loc, 'the primitive cell is the supercell\'s vectors divided by multip', ok, node=d)
-    ne = assigns_to(d, 'num_expected')
-    ok = len(ne) == 1 and sp.simplify(SymEval().ev(ne[0].value, Path({'p_scell': SymObj(None, {'natoms': sp.Symbol('N')}, 'p'), 'multip': sp.Symbol('m', positive=True)})) - sp.Symbol('N') / sp.Symbol('m', positive=True) ** 3) == 0
-    asr = [s for s in d.body if isinstance(s, ast.Assert) and 'num_expected' in norm(s.test) and 'keepindex' in norm(s.test)]
-    sl = [s for s in d.body if isinstance(s, ast.Assign) and norm(s.value) == 'p_scell.atoms[keepindex]']
-    ok = ok and len(asr) == 1 and len(sl) == 1 and asr[0].lineno < sl[0].lineno
-    ctx.ob('CONVERSION', loc, 'exactly natoms/multip³ atoms must lie in the primitive cell before it is cut out', bool(ok), node=d)
-    ki = assigns_to(d, 'keepindex')
-    ctx.ob('CONVERSION', loc, 'the atoms kept are those inside the primitive cell', len(ki) == 1 and norm(ki[0].value) == 'box.inside(p_scell.atoms.pos)', node=d)
-    sh = [s for s in d.body if isinstance(s, ast.AugAssign) and norm(s.target) == 'p_scell.atoms.pos' and norm(s.value) == 'smallshift']
-    ok = len(sh) == 2 and isinstance(sh[0].op, ast.Add) and isinstance(sh[1].op, ast.Sub) and ki and sh[0].lineno < ki[0].lineno < sh[1].lineno
-    ctx.ob('CONVERSION', loc, 'the boundary-avoiding small shift is applied before the selection and undone after it', bool(ok), node=d)
+    # the body of the converter, interpreted with recording stubs on a 16-atom model supercell
+    SH = symarray('sh', (3,), real=True)
+    P0 = symarray('q', (16, 3), real=True)
+    PV = symarray('pv', (3, 3), real=True)
+
+    def convert(inside_true, setting='f', near_zero=None, natoms=16):
+        log = []
+        P0 = symarray('q', (natoms, 3), real=True)
+
+        class _A(PyStub):
+            def __init__(self, pos, tag):
+                self.pos, self.tag = pos, tag
+
+            def __getitem__(self, ix):
+                log.append(('slice', self.tag, np.asarray(ix)))
+                m = np.asarray(ix)
+                return _A(self.pos[m.astype(bool)] if m.dtype != object else self.pos[np.array([bool(v) for v in m])], 'kept')
+
+        class _PS(PyStub):
+            natoms = len(P0)
+            atoms = _A(P0.copy(), 'supercell')
+
+            box = type('_B', (PyStub,), {'vects': PV})()
+
+            def wrap(self):
+                log.append(('wrap', 'supercell', self.atoms.pos.copy()))
+
+        class _Sys(PyStub):
+            symbols = ('Al', 'Cu')
+
+            def rotate(self, uvws, return_transform=False):
+                log.append(('rotate', uvws, return_transform))
+                return _PS(), 'TRANSFORM'
+
+        class _Bx(PyStub):
+            def __init__(self, vects=None, **kw):
+                self.vects_given = vects
+                log.append(('Box', vects, kw))
+
+            def inside(self, pos):
+                log.append(('inside', np.array(pos, dtype=object)))
+                return np.array([i in inside_true for i in range(len(P0))])
+
+        class _New(PyStub):
+            def __init__(self, **kw):
+                self.kw = kw
+                self.atoms = kw.get('atoms')
+                log.append(('System', kw))
+
+            @property
+            def natoms(self):
+                return len(self.atoms.pos)
+
+            def wrap(self):
+                log.append(('wrap', 'primitive', self.atoms.pos.copy()))
+
+            def dmag(self, a_, b_):
+                n_ = self.natoms
+                return arr([0 if (near_zero is not None and i == near_zero) else sp.Rational(1, 2) + i for i in range(n_)])
+
+        class _Mil(PyStub):
+            def vector_primitive_to_conventional(self, M, setting=None):
+                log.append(('p2c', np.asarray(M, dtype=object), setting))
+                return 'CPS_UVWS'
+        ev = SymEval(module_aliases(ctx.mod(C2P)))
+        ev.globals = {'check_setting_basis': lambda *a_, **k: True, 'miller': _Mil(), 'Box': _Bx, 'System': lambda **kw: _New(**kw), 'int': lambda x: x, 'range': lambda n_: list(range(int(n_)))}
+        ev.np_override = {'numpy.isclose': lambda x, y, **k: np.array([bool(sp.sympify(v) == y) for v in np.ravel(x)]).reshape(np.shape(x))}
+        try:
+            paths = ev.run_fn(d, [_Sys()], dict(setting=setting, smallshift=SH, return_transform=True))
+        except WouldRaise as e:
+            return 'raise', log, None
+        except Opaque as e:
+            raise AnalysisError('conventional_to_primitive.dump on the model supercell: %s' % e)
+        live = [q for q in paths if q.done == 'return']
+        return ('ok', log, live[0].ret) if len(live) == 1 else ('raise', log, None)
+    st_, log, ret = convert({3, 11})
+    p2c_ = [l for l in log if l[0] == 'p2c']
+    rot_ = [l for l in log if l[0] == 'rotate']
+    ok = st_ == 'ok' and len(p2c_) == 1 and equal(p2c_[0][1], 2 * np.array(sp.eye(3).tolist(), dtype=object), deep=False) and p2c_[0][2] == 'f' and len(rot_) == 1 and rot_[0][1] == 'CPS_UVWS' and rot_[0][2] is True
+    ctx.ob('CONVERSION', loc, 'conventional→primitive re-expresses the cell along multip × the primitive vectors (in conventional indices) of the same setting, by rotate(), keeping the returned transformation', bool(ok), node=d, key='c2p rotate')
+    bx_ = [l for l in log if l[0] == 'Box']
+    ok = st_ == 'ok' and len(bx_) == 1 and bx_[0][1] is not None and equal(np.asarray(bx_[0][1], dtype=object), PV / 2, deep=False)
+    ctx.ob('CONVERSION', loc, 'the primitive cell is the supercell\'s vectors divided by multip', bool(ok), node=d)
+    ins = [l for l in log if l[0] == 'inside']
+    wr = [l for l in log if l[0] == 'wrap' and l[1] == 'supercell']
+    ok = st_ == 'ok' and len(ins) == 1 and equal(ins[0][1], P0 + SH, deep=False)
+    ctx.ob('CONVERSION', loc, 'the atoms kept are those inside the primitive cell, tested on the positions moved by the boundary-avoiding small shift', bool(ok), node=d)
+    sl = [l for l in log if l[0] == 'slice' and l[1] == 'supercell']
+    sysl = [l for l in log if l[0] == 'System']
+    kept_ok = len(sl) == 1 and [int(i) for i in np.nonzero(np.asarray(sl[0][2]).astype(bool))[0]] == [3, 11]
+    ok = st_ == 'ok' and kept_ok and len(wr) == 2 and equal(wr[-1][2], P0, deep=False) and [i for i, l in enumerate(log) if l is wr[-1]][0] < [i for i, l in enumerate(log) if l is sl[0]][0] and len(sysl) == 1 and sysl[0][1].get('symbols') == ('Al', 'Cu')
+    ctx.ob('CONVERSION', loc, 'the small shift is undone (and the supercell wrapped) before the kept atoms are cut out with their original positions; symbols carried over', bool(ok), node=d, key='shift undone')
+    ok = st_ == 'ok' and isinstance(ret, tuple) and len(ret) == 2 and ret[1] == 'TRANSFORM' and sysl and ret[0].kw is sysl[0][1]
+    ctx.ob('CONVERSION', loc, 'the primitive system is returned with the transformation rotate() gave', bool(ok), node=d, key='c2p return')
+    verd = [(k_, convert(set(k_))[0]) for k_ in ((3,), (3, 11, 12), ())]
+    st4, log4, _r4 = convert({5}, setting='t1', natoms=27)
+    bx4 = [l for l in log4 if l[0] == 'Box']
+    p2c4 = [l for l in log4 if l[0] == 'p2c']
+    ctx.ob('CONVERSION', loc, 'trigonal setting: the 3×3×3 primitive supercell is cut to the cell with vectors divided by 3, one atom in 27 kept',
+           st4 == 'ok' and len(bx4) == 1 and equal(np.asarray(bx4[0][1], dtype=object), PV / 3, deep=False) and len(p2c4) == 1 and equal(p2c4[0][1], 3 * np.array(sp.eye(3).tolist(), dtype=object), deep=False), node=d, key='trigonal cut')
+    st3, log3, _r = convert({0, 1, 2, 3, 4, 5, 6, 7, 8, 9, 10, 11, 12, 13, 14, 15}, setting='t1')
+    ctx.ob('CONVERSION', loc, 'exactly natoms/multip³ atoms must lie in the primitive cell before it is cut out (fewer or more: refused)', all(v[1] == 'raise' for v in verd) and st3 == 'raise' and not [l for l in log3 if l[0] == 'System'],
+           str(verd), node=d)
     # which setting is converted: the head of dump() evaluated with a stub lattice of known centering
     stop = [i for i, st in enumerate(d.body) if isinstance(st, ast.Assign) and norm(st.targets[0]) == 'cps_uvws']
     ctx.need(len(stop) == 1, 'conventional_to_primitive.dump: cps_uvws assignment not found')
@@ -332,56 +423,121 @@ def rotate(ctx):
     ctx.ob('ROTATE', loc, 'the new volume is |a\'·(b\'×c\')| of the new vectors', ok, node=vol[0] if vol else fn)
     nvs = assigns_to(fn, 'newvects')
     ctx.ob('ROTATE', loc, 'the new vectors are the Cartesian images of the integer indices in the current cell', len(nvs) == 1 and norm(nvs[0].value).replace(' ', '') == 'miller.vector_crystal_to_cartesian(uvws,box=self.box)', node=fn)
-    # corners and multipliers, by evaluation on symbolic integer indices
-    frag = [s for s in ast.walk(fn) if isinstance(s, ast.Assign) and norm(s.targets[0]).startswith('corners')]
-    ctx.need(len(frag) >= 9, 'rotate(): corner construction not found')
-    U = symarray('u', (3, 3), integer=True)
-    ev = SymEval({'np': 'numpy'})
-    p = Path({'uvws': U})
-    blk = [s for s in frag]
-    ev.block(sorted(blk, key=lambda s: s.lineno), [p])
-    C = p.env['corners']
-    want = {tuple(sp.expand(x) for x in (a * U[0] + b * U[1] + c * U[2])) for a, b, c in itertools.product((0, 1), repeat=3)}
-    got = {tuple(sp.expand(x) for x in C[i]) for i in range(C.shape[0])}
-    ctx.ob('ROTATE', loc, 'the bounding box is taken over all eight corners of the new cell', got == want and C.shape[0] == 8, node=frag[0])
-    for k, nm in enumerate(('a_mults', 'b_mults', 'c_mults')):
-        a = assigns_to(fn, nm)
-        ok = False
-        if len(a) == 1:
-            try:
-                v = ev.ev(a[0].value, p)
-                col = [C[i, k] for i in range(8)]
-                ok = sp.simplify(v[0] - (sp.Min(*col) - 1)) == 0 and sp.simplify(v[1] - (sp.Max(*col) + 1)) == 0
-            except Opaque:
-                ok = False
-        ctx.ob('ROTATE', loc, 'replication range along %s is (min corner − 1, max corner + 1)' % 'abc'[k], ok, norm(a[0].value) if a else '', node=a[0] if a else fn, key='mults ' + nm)
+    # bounding multipliers: the branch that builds the supercell is interpreted on symbolic integer indices up to the supersize() call
     ss = [c for c in calls_in(fn) if norm(c.func) == 'self.supersize']
-    ctx.ob('ROTATE', loc, 'the bounding supercell is built from those three ranges in order', len(ss) == 1 and [norm(x) for x in ss[0].args] == ['a_mults', 'b_mults', 'c_mults'], node=fn)
-    # expected-count gate dominates construction
-    sysc = [c for c in calls_in(fn) if norm(c.func) == 'System']
-    gate = [s for s in ast.walk(fn) if isinstance(s, ast.If) and norm(s.test).replace(' ', '') == 'notsearch_success' and any(isinstance(x, ast.Raise) for x in s.body)]
-    sets = [s for s in ast.walk(fn) if isinstance(s, ast.Assign) and norm(s.targets[0]) == 'search_success']
-    ok = len(sysc) == 1 and len(gate) == 1 and gate[0].lineno < sysc[0].lineno and len(sets) == 2
-    if ok:
-        tr = [s for s in sets if norm(s.value) == 'True'][0]
-        par = tr._parent
-        ok = isinstance(par, ast.If) and cmp_canon(par.test) is not None and set((cmp_canon(par.test)[0], cmp_canon(par.test)[2])) == {'len(aindex[0])', 'newnatoms'} and cmp_canon(par.test)[1] == '=='
-    ctx.ob('ROTATE', loc, 'the cut-out system is constructed only after the number of atoms found equals the expected count (else refused)', bool(ok), node=gate[0] if gate else fn)
-    ctx.ob('ROTATE', loc, 'the cut-out takes the found atoms, the re-vectored box and the original symbols',
-           len(sysc) == 1 and norm(kwarg(sysc[0], 'atoms')) == 'system2.atoms[aindex]' and norm(kwarg(sysc[0], 'box')) == 'system2.box' and norm(kwarg(sysc[0], 'symbols')) == 'self.symbols', node=fn)
-    w = [s for s in ast.walk(fn) if isinstance(s, ast.Assign) and norm(s.targets[0]) == 'aindex']
-    ok = False
-    if len(w) == 1:
-        S = symarray('s', (1, 3), real=True)
-        ev2 = SymEval({'np': 'numpy'})
-        ev2.funcs = {}
+    ctx.need(len(ss) == 1, 'rotate(): the supersize call was not found')
+    stmt = ss[0]
+    while not isinstance(stmt, ast.stmt):
+        stmt = stmt._parent
+    holder = stmt._parent
+    body = holder.orelse if isinstance(holder, ast.If) and any(x is stmt for x in holder.orelse) else holder.body
+    upto = body[:[i for i, x in enumerate(body) if x is stmt][0] + 1]
+    U = symarray('u', (3, 3), integer=True)
+    NVs = symarray('nv', (3, 3), real=True)
+    got_m = []
+
+    class _Bx(PyStub):
+        volume = sp.Symbol('volume', positive=True)
+
+    class _Mil(PyStub):
+        def vector_crystal_to_cartesian(self, u, box=None):
+            return NVs
+    selfobj = SymObj(None, {'natoms': sp.Symbol('natoms', positive=True, integer=True), 'box': _Bx(), 'supersize': lambda *m: (got_m.append(m), 'SYSTEM2')[1]}, 'self')
+    ev = SymEval(module_aliases(ctx.mod(SYS)))
+    ev.globals = {'miller': _Mil(), 'round': lambda x: x, 'int': lambda x: x}
+    ev.decide = lambda text, v, p_: False if 'newnatoms' in text else None      # the zero-volume refusal is judged separately
+    try:
+        ev.block(upto, [Path({'uvws': U, 'self': selfobj, 'tol': [sp.Rational(1, 10 ** 4)], 'return_transform': False})])
+    except (Opaque, WouldRaise) as e:
+        raise AnalysisError('rotate(): bounding multipliers: %s' % e)
+    corners = [a_ * U[0] + b_ * U[1] + c_ * U[2] for a_, b_, c_ in itertools.product((0, 1), repeat=3)]
+    okm = len(got_m) == 1 and len(got_m[0]) == 3
+    det_m = ''
+    if okm:
+        for k in range(3):
+            col = [c_[k] for c_ in corners]
+            mk = got_m[0][k]
+            good = isinstance(mk, (tuple, list)) and len(mk) == 2 and sp.simplify(mk[0] - (sp.Min(*col) - 1)) == 0 and sp.simplify(mk[1] - (sp.Max(*col) + 1)) == 0
+            ctx.ob('ROTATE', loc, 'replication range along %s is (smallest corner index − 1, largest corner index + 1) over all eight corners of the new cell' % 'abc'[k], bool(good), str(mk)[:160], node=ss[0], key='mults ' + 'abc'[k] + '_mults')
+    else:
+        ctx.ob('ROTATE', loc, 'the bounding supercell is built from three replication ranges', False, str(got_m)[:200], node=ss[0], key='mults')
+    # selection and gate: the rest of that branch interpreted on a small model supercell (which rows a mask selects; when the cut-out is built)
+    rest = body[len(upto):]
+    R_ = sp.Rational
+    eps = R_(1, 10 ** 6)
+    SP = [[R_(1, 4), R_(1, 2), R_(3, 4)],      # 0 inside
+          [0, 0, 0],                             # 1 on the three lower faces: kept
+          [1, R_(1, 2), R_(1, 2)],               # 2 on an upper face: not kept
+          [R_(1, 2), 1 - eps, R_(1, 2)],         # 3 within every ladder tolerance of an upper face: rounded up, not kept
+          [R_(1, 2), R_(1, 2), -eps],            # 4 just below a lower face: rounded to it, kept
+          [R_(-1, 4), R_(1, 2), R_(1, 2)],       # 5 outside
+          [R_(1, 2), R_(5, 4), R_(1, 2)],        # 6 outside
+          [R_(9, 10), R_(1, 10), R_(999, 1000)]]  # 7 inside
+    keep_want = [0, 1, 4, 7]
+
+    def run_rest(newnatoms):
+        made_sys, picked, boxset = [], [], []
+
+        class _At(PyStub):
+            def __getitem__(self, ix):
+                picked.append(ix)
+                return ('ATOMS', ix)
+
+        class _S2(PyStub):
+            atoms = _At()
+            box = 'BOX2'
+
+            def box_set(self, **kw):
+                boxset.append(kw)
+
+            def atoms_prop(self, key=None, scale=False, **k):
+                if key != 'pos' or scale is not True:
+                    raise Opaque('atoms_prop(%s, scale=%s)' % (key, scale))
+                return np.array(SP, dtype=object)
+
+        class _New(PyStub):
+            def __init__(self, **kw):
+                self.kw = kw
+                made_sys.append(self)
+
+            def normalize(self, **kw):
+                return ('NORMALIZED', self, kw)
+
+        def close(x, y, rtol=R_(1, 10 ** 5), atol=R_(1, 10 ** 8), **k):
+            f = lambda v: bool(sp.Abs(sp.sympify(v) - y) <= atol + rtol * abs(y))
+            return np.array([f(v) for v in np.ravel(x)]).reshape(np.shape(x)) if np.ndim(x) else f(x)
+        ev3 = SymEval(module_aliases(ctx.mod(SYS)))
+        ev3.globals = {'System': lambda **kw: _New(**kw)}
+        ev3.np_override = {'numpy.isclose': close}
+        env = {'system2': _S2(), 'newnatoms': sp.Integer(newnatoms), 'newvects': NVs, 'tol': [R_(1, 10 ** 4), R_(1, 10 ** 5)], 'self': SymObj(None, {'symbols': ('Al', 'Cu')}, 'self'), 'return_transform': False, 'uvws': U}
         try:
-            v = ev2.ev(w[0].value.args[0], Path({'spos': S}))
-            want_ = sp.And(*[sp.And(S[0, i] >= 0, S[0, i] < 1) for i in range(3)])
-            ok = sp.simplify(sp.Equivalent(v[0], want_)) == sp.true
-        except Exception:
-            ok = False
-    ctx.ob('ROTATE', loc, 'atoms kept are those with all three relative coordinates in [0, 1)', ok, node=w[0] if w else fn)
+            q = ev3.block(rest, [Path(env)])
+        except WouldRaise as e:
+            return 'raise', made_sys, picked, boxset
+        except Opaque as e:
+            raise AnalysisError('rotate(): selection of the atoms inside the new cell: %s' % e)
+        if all(x.done == 'raise' for x in q):
+            return 'raise', made_sys, picked, boxset
+        return 'ok', made_sys, picked, boxset
+    st_, made_sys, picked, boxset = run_rest(len(keep_want))
+    sel = None
+    if picked:
+        ix = picked[-1]
+        ix = ix[0] if isinstance(ix, tuple) else ix
+        ix = np.asarray(ix)
+        sel = sorted(int(v) for v in (np.nonzero(ix)[0] if ix.dtype == bool else ix.ravel()))
+    ctx.ob('ROTATE', loc, 'atoms kept are those with all three relative coordinates in [0, 1) after rounding values within the tolerance of 0 or 1 onto the face (model supercell of eight atoms)', st_ == 'ok' and sel == keep_want,
+           'selected %s, expected %s' % (sel, keep_want), node=fn, key='inside model')
+    ok = st_ == 'ok' and len(made_sys) == 1 and made_sys[0].kw.get('box') == 'BOX2' and made_sys[0].kw.get('symbols') == ('Al', 'Cu') and isinstance(made_sys[0].kw.get('atoms'), tuple) and made_sys[0].kw['atoms'][0] == 'ATOMS'
+    ctx.ob('ROTATE', loc, 'the cut-out takes the found atoms, the re-vectored box and the original symbols', bool(ok), node=fn)
+    ok = len(boxset) == 1 and boxset[0].get('vects') is NVs and boxset[0].get('scale', False) is False
+    ctx.ob('ROTATE', loc, 'the supercell is re-vectored to the new vectors holding absolute positions before the selection', bool(ok), str(boxset)[:120], node=fn, key='revector')
+    verdicts = []
+    for nn_ in (3, 5, 0 + 8):
+        st2, made2, _p, _b = run_rest(nn_)
+        verdicts.append((nn_, st2, len(made2)))
+    ctx.ob('ROTATE', loc, 'the cut-out system is constructed only after the number of atoms found equals the expected count (fewer or more found: refused, nothing built)', all(v[1] == 'raise' and v[2] == 0 for v in verdicts),
+           str(verdicts), node=fn, key='gate')
     # the tolerance ladder: nothing rounded in place under one tolerance may leak into the next
     lad = [s for s in ast.walk(fn) if isinstance(s, ast.For) and norm(s.iter) == 'tol']
     ctx.need(len(lad) == 1, 'rotate(): tolerance loop not found')
